@@ -129,7 +129,11 @@ def server_contexts(res, rnd, nbases):
                         if c == "Proper":
                             st, r = s.call("GetProperCandidates", {"input": inp})
                         else:
-                            st, r = s.call("GetCandidates", {"input": inp, "context": {"kind": c}})
+                            ctxo = {"kind": c}
+                            if rnd.random() < 0.6:
+                                # the optional value of the context (the text before the cursor) never changes the kind
+                                ctxo["value"] = rnd.choice(["2024", "abc", "カタカナ", "", "3人", "x1", "漢字", "１２", "Tel"])
+                            st, r = s.call("GetCandidates", {"input": inp, "context": ctxo})
                         n += 1
                         got = [x["candidate"] for x in r["candidates"]] if st == "ok" else None
                         if got != l.get("ok"):
@@ -160,8 +164,11 @@ def run(tier, seed):
         d, alpha = gen_dict(rnd, True)
         for _ in range(3):
             f = []
-            if rnd.random() < 0.4 and d["std"]:
-                for w in rnd.sample(d["std"], min(len(d["std"]), 2)):
+            if rnd.random() < 0.5 and d["std"]:
+                # learned words: proper nouns first (the bonus must not depend on what was learned), then any
+                propers = [w for w in d["std"] if w[2] == {"Noun": "Proper"}]
+                pick = (rnd.sample(propers, min(len(propers), 2)) if propers and rnd.random() < 0.7 else []) or rnd.sample(d["std"], min(len(d["std"]), 2))
+                for w in pick:
                     k = rnd.randint(1, 4)
                     f += [[c, w[1], k, 0] for c in CONTEXTS]     # the same learned counts in every context
             bases.append({"dict": d, "input": gen_input(rnd, d, alpha, 7), "freq": f})
